@@ -113,7 +113,7 @@ def terms_facts(H, x):
     bounded/c19.py)"""
     T = H.terms(x)
     n = T.n
-    i, j = z3.Int(fresh_name("ti")), z3.Int(fresh_name("tj"))
+    i, j, y = z3.Int(fresh_name("ti")), z3.Int(fresh_name("tj")), z3.Int(fresh_name("ty"))
     el = lambda k: T.get(k).t
     return VBool(z3.And(
         n >= 1,
@@ -125,6 +125,14 @@ def terms_facts(H, x):
         z3.ForAll([i], z3.Implies(z3.And(0 <= i, i + 1 < n),
                                   H.num(VRef(el(i))).t < H.num(VRef(el(i + 1))).t)),
         z3.Implies(H.nchild_t(x.t) == 0, z3.And(n == 1, el(0) == x.t)),
+        # globally increasing, and complete: every token below x occurs (both verified for trees.terminals under C19;
+        # the triggers keep these two clauses silent unless a proof mentions the terms)
+        z3.ForAll([i, j], z3.Implies(z3.And(0 <= i, i < j, j < n), H.num(VRef(el(i))).t < H.num(VRef(el(j))).t),
+                  patterns=[z3.MultiPattern(H.num(VRef(el(i))).t, H.num(VRef(el(j))).t)]),
+        z3.ForAll([y], z3.Implies(z3.And(tobool(WF(H, VRef(y))), H.nchild_t(y) == 0, tobool(desc(H, x, VRef(y)))),
+                                  z3.And(0 <= T_idx(H, x, VRef(y)).t, T_idx(H, x, VRef(y)).t < n,
+                                         el(T_idx(H, x, VRef(y)).t) == y)),
+                  patterns=[T_idx(H, x, VRef(y)).t]),
     ))
 
 
